@@ -1015,9 +1015,9 @@ class Pool:
 
 # ---- TLC -------------------------------------------------------------------------------------------
 
-TC_NAMES = "Constant Coefficient CellVolume Zero MultiIndex Label Sum Product IndexSum Indexed Conditional LT Variable".split()
+TC_NAMES = "Constant Coefficient CellVolume Zero MultiIndex Label Sum Product IndexSum Indexed Conditional LT Variable Grad".split()
 MODEL_OFFSETS = [0, 1, 8, 9, 10, 90, 98, 99, 100]
-OPS = ["mesh", "const", "coef", "vcoef", "scoef", "geo", "index", "idx", "comp", "sum", "prod", "zeromul", "cond", "var"]
+OPS = ["mesh", "const", "coef", "vcoef", "tcoef", "scoef", "geo", "index", "idx", "idx2", "comp", "grad", "sum", "prod", "zeromul", "cond", "var", "integ"]
 
 # script families (Caps of SigCounters.tla; an instruction that is not named has cap 0)
 FAM_CONST = dict(mesh=2, const=3, coef=1, vcoef=0, geo=2, index=0, idx=0, sum=2, prod=2, zeromul=0, cond=0, var=1)
@@ -1037,7 +1037,7 @@ def real_typecodes():
     return {n: int(getattr(C, n)._ufl_typecode_) for n in TC_NAMES}
 
 
-def mc_text(base, caps, cmp_of, offsets=None, boundaries=(), bump_kinds=None):
+def mc_text(base, caps, cmp_of, offsets=None, boundaries=(), bump_kinds=None, need=None):
     offsets = MODEL_OFFSETS if offsets is None else offsets
     bump_kinds = KINDS5 if bump_kinds is None else bump_kinds
     return (
@@ -1049,6 +1049,7 @@ def mc_text(base, caps, cmp_of, offsets=None, boundaries=(), bump_kinds=None):
         f"MCBoundaries == {{{', '.join(map(str, boundaries))}}}\n"
         f"MCBumpKinds == {{{', '.join(json.dumps(k) for k in bump_kinds)}}}\n"
         f"MCCaps == {tlc.tla({o: caps.get(o, 0) for o in OPS})}\n"
+        f"MCNeed == {tlc.tla({o: (need or {}).get(o, 0) for o in OPS})}\n"
         "====\n"
     )
 
@@ -1056,7 +1057,7 @@ def mc_text(base, caps, cmp_of, offsets=None, boundaries=(), bump_kinds=None):
 def cfg_text(comparator, zerosig, maxbumped, maxsteps, emit, invariants):
     return (
         "CONSTANTS TC <- MCTC\nBase <- MCBase\nComparatorOf <- MCCmpOf\nOffsets <- MCOffsets\nBoundaries <- MCBoundaries\n"
-        "BumpKinds <- MCBumpKinds\nCaps <- MCCaps\n"
+        "BumpKinds <- MCBumpKinds\nCaps <- MCCaps\nNeed <- MCNeed\n"
         f'Comparator = "{comparator}"\nZeroSig = "{zerosig}"\nMaxBumped = {maxbumped}\nMaxSteps = {maxsteps}\n'
         f"Emit = {'TRUE' if emit else 'FALSE'}\nSPECIFICATION Spec\n" + "".join(f"INVARIANT {i}\n" for i in invariants)
     )
@@ -1068,7 +1069,8 @@ TLC_ENV = {"JAVA_TOOL_OPTIONS": f"-DTLA-Library={os.path.join(ROOT, 'spec')} -Xm
 class Job:
     """One TLC run of SigCounters."""
 
-    def __init__(self, label, caps, comparator, zerosig, maxbumped, maxsteps, *, emit=False, cmp_of=None, workers=4, offsets=None, boundaries=(), bump_kinds=None, invariants=None):
+    def __init__(self, label, caps, comparator, zerosig, maxbumped, maxsteps, *, emit=False, cmp_of=None, workers=4, offsets=None, boundaries=(), bump_kinds=None, invariants=None, need=None):
+        self.need = need
         self.label, self.caps, self.comparator, self.zerosig = label, caps, comparator, zerosig
         self.maxbumped, self.maxsteps, self.emit, self.workers = maxbumped, maxsteps, emit, workers
         self.cmp_of = cmp_of or {"const": "repr", "geo": "repr", "zero": "repr"}
@@ -1080,7 +1082,7 @@ class Job:
         self.res = tlc.run(
             "SigCounters",
             cfg_text(self.comparator, self.zerosig, self.maxbumped, self.maxsteps, self.emit, self.invariants),
-            mc_text=mc_text(base, self.caps, self.cmp_of, self.offsets, self.boundaries, self.bump_kinds),
+            mc_text=mc_text(base, self.caps, self.cmp_of, self.offsets, self.boundaries, self.bump_kinds, self.need),
             mc_name="MC_SigCounters",
             workers=min(4, self.workers),
             timeout=1500,
